@@ -180,8 +180,10 @@ def run(ctx):
         elif isinstance(st, ast.Assign) and 'partition.step_num' in norm(st.value) and 'len(' in norm(st.value):
             # sub-step namer: '<container>_<index>' followed by the append to the container
             fn = enclosing_function(n)
+            aliases_ = {a_.targets[0].id for a_ in ast.walk(fn) if isinstance(a_, ast.Assign) and len(a_.targets) == 1 and isinstance(a_.targets[0], ast.Name)
+                        and norm(a_.value).endswith('partition.step')}
             ok = any(isinstance(x, ast.Call) and isinstance(x.func, ast.Attribute) and x.func.attr == 'append'
-                     and norm(x.func.value).endswith('partition.step') for x in ast.walk(fn))
+                     and (norm(x.func.value).endswith('partition.step') or norm(x.func.value) in aliases_) for x in ast.walk(fn))
             why = 'names a sub-step without appending it to its container'
         ctx.ob('C09.numbering', f'{lab}:{norm(st)[:70]}', ok,
                f'{lab} writes a step number (`{norm(st)[:80]}`) and {why}: steps must be numbered by their position when appended',
@@ -548,8 +550,13 @@ def run(ctx):
                witness='with a as (select * from int1.t), b as (select * from a join mindsdb.pred) select * from a')
     # (7) steps remembered for later reference by top-level steps are never of a kind that can sit inside a map-reduce partition -------------------
     part_kinds = set()
-    for f, fn in all_fns:
-        if fn.name == 'add_plan_step':
+    # ... in add_plan_step itself or in the methods of its class that it calls (`self.goes_to_partition(step, size)`)
+    aps_ = [(f, fn) for f, fn in all_fns if fn.name == 'add_plan_step']
+    for f, fn in list(aps_):
+        called_ = {c.func.attr for c in ast.walk(fn) if isinstance(c, ast.Call) and isinstance(c.func, ast.Attribute) and norm(c.func.value) == 'self'}
+        aps_ += [(f2, fn2) for f2, fn2 in all_fns if f2 == f and fn2.name in called_ and fn2.name != 'add_plan_step']
+    for f, fn in aps_:
+        if True:
             for n in ast.walk(fn):
                 if isinstance(n, ast.Call) and dotted(n.func) == 'isinstance' and len(n.args) == 2:
                     cls_arg = n.args[1]
@@ -635,7 +642,11 @@ def check_partition(ctx, model):
                                'self.planner.plan_project'):
                         arg0 = norm(n.args[0]) if n.args else ''
                         ctx.count('partition_add_sites')
-                        ctx.ob('C09.container-closed', f'{fnname}:{d}({arg0[:30]})', st == 'closed' or arg0 == 'self.partition',
+                        # adding the partition step itself: `self.partition`, or the local that was just stored there (`self.partition = partition`)
+                        fn_here = enclosing_function(n)
+                        same_obj = {norm(a_.value) for a_ in ast.walk(fn_here) if isinstance(a_, ast.Assign) and norm(a_.targets[0]) == 'self.partition'
+                                    and isinstance(a_.value, ast.Name)} if fn_here is not None else set()
+                        ctx.ob('C09.container-closed', f'{fnname}:{d}({arg0[:30]})', st == 'closed' or arg0 == 'self.partition' or arg0 in same_obj,
                                f'PlanJoinTablesQuery.{fnname} adds a step to the plan (`{norm(n)[:60]}`) on a path where the open '
                                f'map-reduce partition may not have been closed: sub-steps appended to the partition afterwards would '
                                f'consume results of later steps', file=f, line=n.lineno,
